@@ -201,6 +201,21 @@ EXTRA2 = {   # rounds 7-8 (DESIGN.md section 0f)
     "C19": "Rounds 7-8: I6 compares ids over the whole list; I7 shared with the other checks (immutable results, hashable keys; NamedTuple and enum results are immutable).",
 }
 
+EXTRA3 = {   # round 9 (DESIGN.md section 0g)
+    "C01": "Round 9: W16 also `dict.fromkeys` / `Counter`; a writer flag with a true default that nobody sets away reads as true.",
+    "C02": "Round 9: T2 octets are not read by indexing a caller's memoryview (format-dependent); L13 no chunk is refused for its size.",
+    "C04": "Round 9: T2; dispatch tests through boolean aliases and whole-tag comparisons are read (V7 reports a universal type accepted in a trailing-element loop).",
+    "C07": "Round 9: T2; public methods composed only of other public methods of the reader / writer are not judged as primitives.",
+    "C09": "Round 9: N6 the decoded ID is bound once, by the read.",
+    "C12": "Round 9: D7 an offset-based drain keeps its offset inside the buffer; a flag-guarded look (`peek=True`) is not a delivery.",
+    "C13": "Round 9: J21 escapes decoded in one pass; J22 bounded delimiter searches stay in their piece.",
+    "C15": "Round 9: F9 bounded delimiter searches stay in their piece.",
+    "C16": "Round 9: H19 text computed when asked; H20 / H7 nothing shared or memoised is handed out by the parser.",
+    "C17": "Round 9: G9 no module-level list / dict handed out as part of a result.",
+    "C18": "Round 9: E6 no second descent on failure in a recursive group; E7 no allocation sized by a decoded number.",
+    "C19": "Round 9: I1 lets immutable-typed constructor parameters through; class / static methods are not session entries.",
+}
+
 NOT_APPLICABLE = {
     "C14": "agreement of a hand-written offset-arithmetic parser with the RFC 4515 grammar on every sentence is semantic "
            "equivalence over unbounded strings; no sound static argument in reach decides it (lexical pieces are checked under C13/C15)",
@@ -240,6 +255,8 @@ def main():
             c["text"] = c["text"] + " " + EXTRA[pid]
         if pid in EXTRA2:
             c["text"] = c["text"] + " " + EXTRA2[pid]
+        if pid in EXTRA3:
+            c["text"] = c["text"] + " " + EXTRA3[pid]
         checks.append({
             "property_id": pid,
             "quick_cmd": f"/venv/bin/python sa/run.py {pid} --tier quick",
